@@ -151,6 +151,7 @@ impl<V: Hash, S> Hash for HashableHashSet<V, S> {
                 inner_hasher.finish()
             }));
             buffer.sort_unstable();
+            hasher.write_usize(buffer.len());
             for v in &*buffer {
                 hasher.write_u64(*v);
             }
@@ -366,6 +367,7 @@ impl<K: Hash, V: Hash, S> Hash for HashableHashMap<K, V, S> {
                 inner_hasher.finish()
             }));
             buffer.sort_unstable();
+            state.write_usize(buffer.len());
             for hash in &*buffer {
                 state.write_u64(*hash);
             }
